@@ -101,7 +101,7 @@ func elemRange1(v ssa.Value, ptrBits, depth int) (ival, bool) {
 				idx = k
 			}
 		}
-		cs := gL.StaticCallers(fn)
+		cs := gL.RealCallers(fn)
 		if idx < 0 || len(cs) == 0 {
 			return fullRange(), false
 		}
